@@ -133,6 +133,61 @@ func RunCase(c Case) (res stats.Result) {
 	return res
 }
 
+// RunPairCase runs a concurrent pair (two workloads, two driver contexts, one emulation run):
+// both workloads' Verify() must accept what they read back.
+func RunPairCase(c Case) (res stats.Result) {
+	if why := benchgen.AdmissiblePair(c); why != "" {
+		panic("harness: pair outside the documented domain: " + why + ": " + describe(c))
+	}
+	same := c.Second.GPUs[0] == c.GPUs[0]
+	res.Labels = []string{"pair", "workload:" + c.Workload, "second:" + c.Second.Workload, "arch:" + c.Arch}
+	if same {
+		res.Labels = append(res.Labels, "both-on-one-gpu")
+	} else {
+		res.Labels = append(res.Labels, "on-two-gpus")
+	}
+	res.NonTrivial = same
+	o := benchgen.RunWorker(c, nil)
+	if o.Harness != "" {
+		panic("harness: " + o.Harness)
+	}
+	if o.TimedOut {
+		res.Labels = append(res.Labels, "timeout", "timeout:"+c.Workload+"+"+c.Second.Workload)
+		res.NonTrivial = false
+		return res
+	}
+	if o.Exit == 0 && o.Signal == "" && strings.HasSuffix(strings.TrimSpace(o.Stdout), benchcase.PassMarker) {
+		return res
+	}
+	if o.Exit == 3 && strings.Contains(o.Stderr, "BENCHRUN-HARNESS-ERROR") {
+		panic("harness: " + evidence(o.Stderr))
+	}
+	// is one of the two workloads wrong on its own? Then the pair adds nothing (bench stage's subject)
+	a := c
+	a.Second = nil
+	b := a
+	b.Workload, b.P, b.GPUs = c.Second.Workload, c.Second.P, c.Second.GPUs
+	b.GPUs = []int{1}
+	for _, single := range []Case{a, b} {
+		so := benchgen.RunWorker(single, nil)
+		if so.Harness == "" && !so.TimedOut && !(so.Exit == 0 && so.Signal == "") {
+			res.Labels = append(res.Labels, "a-workload-of-the-pair-fails-alone")
+			res.NonTrivial = false
+			return res
+		}
+	}
+	second := fmt.Sprintf("%s %v on GPU %v", c.Second.Workload, c.Second.P, c.Second.GPUs)
+	res.Violation = fmt.Sprintf("%s concurrently with %s (each passes alone): worker exit status %d %s after %.1fs: %s", describe(c), second, o.Exit, o.Signal, o.Wall.Seconds(), evidence(o.Stderr))
+	return res
+}
+
+func TestPropPair(t *testing.T) {
+	rapid.Check(t, func(rt *rapid.T) {
+		c := benchgen.GenPair(rt)
+		stats.Record(rt, c, RunPairCase(c))
+	})
+}
+
 func TestPropBench(t *testing.T) {
 	rapid.Check(t, func(rt *rapid.T) {
 		c := genCase(rt)
@@ -176,7 +231,7 @@ func TestRegress(t *testing.T) {
 			t.Fatalf("%s: %v", f.Name(), err)
 		}
 		os.Unsetenv("VERIF_REPLAY")
-		r := RunCase(c)
+		r := runAny(c)
 		r.Labels = append(r.Labels, "regress:"+f.Name())
 		stats.Record(t, c, r)
 	}
@@ -191,5 +246,12 @@ func TestReplay(t *testing.T) {
 	if err != nil {
 		t.Fatal(err)
 	}
-	stats.Record(t, c, RunCase(c))
+	stats.Record(t, c, runAny(c))
+}
+
+func runAny(c Case) stats.Result {
+	if c.Second != nil {
+		return RunPairCase(c)
+	}
+	return RunCase(c)
 }
